@@ -88,6 +88,20 @@ CLAIMS = {
          "memory-order weakening cannot be observed in x86 executions and is decided by the model (TSan auxiliary).",
     technique="PlusCal/TLA+ spec + TLC (all interleavings, negative variants); TLC trace validation of "
               "multi-threaded executions ordered by in-lock sequence numbers"),
+ "C19": dict(
+    text="TLC checks TargetSelect for every CPU (2^10 feature sets x 3 XCR0 values) and every override value: the "
+         "selection as the code computes it (registration order, last executable wins, flags from CPUID words, "
+         "override rule) meets the property (no executable mark without CPU+OS support, detected = best supported, "
+         "flags within the CPU, named supported target honoured, unknown name ignored, never an unrunnable default).  "
+         "The states are presented to the real library through the hook ORC_VERIF_CPUID, one child each; the reported "
+         "default target, executable marks, default flags and the result of compiling+running through the default "
+         "path are validated by TLC against the property half of the specification.",
+    design_ref="DESIGN.md section 6 C19",
+    note="The hook replaces CPUID leaf 1 ecx/edx, leaf 7 ebx and XCR0 as seen by the standard-flags routine on the "
+         "vendor path of this host (Intel); AMD-only extended leaves are not varied.  Known finding F9b (documented "
+         "variable ORC_TARGET is ignored) is reported as KNOWN-FINDING.",
+    technique="TLA+ spec + TLC over all CPU descriptions; replay of the states into liborc via a CPUID hook; TLC "
+              "trace validation of the reports"),
 }
 
 NOT_APPLICABLE = {
